@@ -1,5 +1,5 @@
 """C02 - SolveFailure is raised exactly when the hard constraints are unsatisfiable."""
-from .. import engine, fam_expr, fam_hist
+from .. import engine, fam_expr, fam_hist, fam_tree
 
 LEVEL = "model_checking"
 
@@ -9,7 +9,10 @@ def scenarios(tier, seed):
             + fam_expr.family_S(tier, seed, per_kind=2 if tier == "quick" else 20)
             # satisfiability is also judged inside histories: after failing calls, list / rangelist edits, calls that only
             # reference fields of other objects
-            + fam_hist.family_H(tier, seed, n=16 if tier == "quick" else 200))
+            + fam_hist.family_H(tier, seed, n=16 if tier == "quick" else 200)
+            # ... and inside object trees: blocks of non-random members (and of anything below them) take no part, whatever
+            # their current values
+            + fam_tree.family_T(tier, seed, n=10 if tier == "quick" else 120, probes=True, tag="T02") + fam_tree.family_nonrand_member(tier, seed))
 
 
 def run(tier, seed, limit=0):
